@@ -12,7 +12,7 @@ namespace {
 using U = uint64_t;
 struct Fnv { uint64_t h = 1469598103934665603ull; void add(uint64_t v) { for (int i = 0; i < 8; ++i) { h ^= (v >> (8 * i)) & 0xff; h *= 1099511628211ull; } } };
 
-std::vector<U> keys;   // 3000 keys, irregular gaps, some duplicates
+std::vector<U> keys;   // 3000 keys with irregular gaps and duplicates, a dense irregular cluster of 6000 keys, 40 far keys
 pgm::PGMIndex<U, 4, 2> *pgm_idx;
 pgm::CompressedPGMIndex<U, 4, 2> *comp_idx;
 pgm::BucketingPGMIndex<U, 4, 16, 32> *buck_idx;
@@ -27,8 +27,8 @@ std::string map_file;
 
 U probe(int q) {   // 8 probes: present keys, absent keys in gaps, below the first key, above the last key, far away
     switch (q) {
-        case 0: return keys[10]; case 1: return keys[1500] + 1; case 2: return keys[2999]; case 3: return 0;
-        case 4: return keys[2999] + 12345; case 5: return keys[777]; case 6: return (U(1) << 63) + 5; default: return keys[2000] - 1;
+        case 0: return keys[10]; case 1: return keys[1500] + 1; case 2: return keys.back(); case 3: return 0;
+        case 4: return keys.back() + 12345; case 5: return keys[6000]; case 6: return (U(1) << 63) + 5; default: return keys[7000] + 1;   // 5 and 7: inside the dense irregular cluster
     }
 }
 template<typename I> uint64_t search_digest(const I &ix, int q) { auto r = ix.search(probe(q)); Fnv f; f.add(r.pos); f.add(r.lo); f.add(r.hi); return f.h; }
@@ -37,6 +37,11 @@ template<typename I> uint64_t search_digest(const I &ix, int q) { auto r = ix.se
 void zoo_build(const char *dir) {
     U x = 1000;
     for (int i = 0; i < 3000; ++i) { x += (i % 11 == 0 || (i > 500 && i <= 540)) ? 0 : 1 + (U(i) * 2654435761u % 53) * (i % 17 == 0 ? 4000 : 1); keys.push_back(x); }   // short duplicate runs, and one run of 41 equal keys (longer than any search window)
+    // a dense irregular cluster of 6000 keys (hundreds of short segments within a few Elias-Fano buckets: long scans inside the select
+    // structures) followed by 40 far keys (long runs of empty buckets)
+    x += 1000;
+    for (int i = 0; i < 6000; ++i) { x += (i % 9 == 0) ? 37 + (U(i) * 2654435761u % 5) : 1 + (U(i) * 40503u % 3 == 0); keys.push_back(x); }
+    for (int i = 0; i < 40; ++i) { x += (U(1) << 40) + U(i) * 977; keys.push_back(x); }
     pgm_idx = new pgm::PGMIndex<U, 4, 2>(keys.begin(), keys.end());
     comp_idx = new pgm::CompressedPGMIndex<U, 4, 2>(keys.begin(), keys.end());
     buck_idx = new pgm::BucketingPGMIndex<U, 4, 16, 32>(keys.begin(), keys.end());
@@ -59,7 +64,7 @@ int zoo_classes() { return 8; }
 const char *zoo_class_name(int c) { static const char *n[] = {"PGMIndex<u64,4,2>", "CompressedPGMIndex<u64,4,2>", "BucketingPGMIndex<u64,4,16,32>", "EliasFanoPGMIndex<u64,4>", "MappedPGMIndex<u64,4,2>", "MultidimensionalPGMIndex<2,u32,4>", "DynamicPGMIndex<u32,u32>(2,1,2)", "BucketingPGMIndex<u64,4,100,0>"}; return n[c]; }
 int zoo_queries(int) { return 8; }
 const char *zoo_query_name(int c, int q) {
-    static const char *s[] = {"search(present)", "search(gap)", "search(last)", "search(0)", "search(above last)", "search(present2)", "search(far)", "search(before key)"};
+    static const char *s[] = {"search(present)", "search(gap)", "search(last)", "search(0)", "search(above last)", "search(in dense cluster)", "search(far)", "search(gap in dense cluster)"};
     static const char *m[] = {"lower_bound(present)", "upper_bound(gap)", "count(long dup run)", "contains(0)", "lower_bound(above last)", "upper_bound(long dup run)", "contains(far)", "count(absent)"};
     static const char *d[] = {"contains(stored)", "contains(absent)", "range(small box)", "range(slab with 70 misses)", "range(full)", "range(empty box)", "contains(beyond)", "range(corner)"};
     static const char *y[] = {"find(live)", "find(erased)", "count", "lower_bound(gap)", "lower_bound(below)", "range(20,90)", "full iteration", "begin+3"};
